@@ -206,6 +206,10 @@ def rule_w4(ctx: Ctx) -> None:
     if set(trans) != states or any(set(t) != set(axis) for t in trans.values()):
         ctx.violation("C16-W4", f, calls[0], "the automaton for M is not complete over the four direction letters")
         return
+    undefined = sorted({t for tr in trans.values() for t in tr.values()} - states, key=str)
+    if undefined or init not in states or not finals <= states:
+        ctx.violation("C16-W4", f, calls[0], f"the automaton for M refers to state(s) {undefined or [init]} that are not among its states")
+        return
     # product with the reference automaton (last axis, dead) – explore all reachable pairs
     seen = set()
     todo = [(init, "start")]
